@@ -86,3 +86,9 @@ CLAIMS["C01"] = (
     "Codecs (lzma, bz2, zlib, zstd, ppmd, brotli, bcj), AES-CBC and CRC32 are assumed stream transducers; end-to-end chaining of the proved links is a written argument (DESIGN.md 7), not one theorem; SevenZipCompressor/SevenZipDecompressor chain contracts are listed in the evidence where present.",
     "DESIGN.md 7 (C01)",
 )
+
+CLAIMS["C03"] = (
+    "Contracts on every function between a member name and a filesystem effect: canonical_path (no '..' survives below an absolute root, root kept), is_relative_to / is_path_valid (lexical containment against the cwd-joined destination), get_sanitized_output_path (result lexically inside the destination or a relative path without '..' for path=None), SevenZipFile._extract (every path registered with the worker, pre-created, re-timed or re-moded is such a result; the destination handed over is absolute), Worker._extract_single (every mkdir/open/touch/unlink/symlink_to acts on the registered path or its parent AFTER the resolved parent was checked against the resolved destination; a link is only created after its resolved target passed the same check).",
+    "The filesystem itself (what Path.resolve() returns, that mkdir/open act where the resolved path says) and pathlib's parser are assumed contracts; concurrent creation of links by parallel folder workers between check and use has no semantics in this family and is excluded; pre-existing links in the destination are outside the property's quantifier.",
+    "DESIGN.md 7 (C03)",
+)
